@@ -1207,6 +1207,6 @@ func init() {
 			NotDecided:  []string{"a panic inside the callback leaves the scope extended (no defer; outside the property's quantifier)", "reachability 'exactly under the concatenated prefixes' as a string fact (C11)"},
 			Assumptions: []string{"registration is single-threaded"},
 		},
-		Rules: []ruleFn{{"C12-BRACKET", ruleC12Bracket}, {"C12-COPY", ruleC12CopyUse}, {"C04-SEQ", ruleC04Seq}, {"C12-DERIVED", ruleC12Derived}},
+		Rules: []ruleFn{{"C12-BRACKET", ruleC12Bracket}, {"C12-COPY", ruleC12CopyUse}, {"C04-SEQ", ruleC04Seq}, {"C11-SAME", ruleC11Same}, {"C12-DERIVED", ruleC12Derived}},
 	})
 }
